@@ -83,11 +83,22 @@ class C19(vlib.Check):
             case = {"t": "sdf", "ref": ref, "nconf": nconf, "energies": energies, "ext": rng.choice(EXTS),
                     "wlim": rng.choice([None, None, -1, 1, 2, nconf, nconf + 3]), "rlim": rng.choice([None, None, 1, 2, nconf, nconf + 3]),
                     "gaps": rng.random() < 0.25 and nconf >= 3, "own_energy": rng.random() < 0.15,
-                    "name": rng.choice(["mol", "CHEMBL1", "a b", None])}
+                    # the name is the first line of the file: names that begin like a compressed stream or another container
+                    # format (bzip2 "BZh", zip "PK", 7z, xz, a UTF-8 byte-order mark) are ordinary names
+                    "name": rng.choice(["mol", "CHEMBL1", "a b", None, "mol", rng.choice(["BZh91AY&SY-3", "BZhydrazide-2", "BZh", "PK11195", "7z\xbc\xaf-x", "\ufeffmol", "ý7zXZ"])])}
+            if case["name"] not in ("mol", "CHEMBL1", "a b", None):
+                self.count("name-like-file-signature")
             self.count("ext:" + case["ext"])
             self.count("energies:%s" % (energies is not None))
             self.count("gaps:%s" % case["gaps"])
             yield case
+        # ... and every such name once with every extension (stratified, so that no run depends on the draw above)
+        for nm in ["BZh91AY&SY-3", "BZhydrazide-2", "BZh", "PK11195", "7z\xbc\xaf-x", "\ufeffmol", "ý7zXZ"]:
+            for ext in EXTS:
+                nconf = rng.choice([1, 2, 3])
+                self.count("name-like-file-signature")
+                yield {"t": "sdf", "ref": rng.choice(refs), "nconf": nconf, "energies": rng.choice([None, [float(j) for j in range(nconf)]]), "ext": ext,
+                       "wlim": None, "rlim": rng.choice([None, 2]), "gaps": False, "own_energy": False, "name": nm}
         for _ in range(max(n // 4, 30)):
             k = rng.randint(1, 8)
             names = rng.sample(["a", "b", "mol_1", "CHEMBL25", "é", "x-1", "Z", "q.r", "n7", "3'-deoxyadenosine", 'say"x"', "a\\b", "p#1", "$v", "(R)-x"], k)
